@@ -169,4 +169,109 @@ theorem lexCmp_append_right {c : Int → Int → Ordering} (hr : ∀ a, c a a = 
   | a :: as, b :: bs, h => by
     simp only [List.cons_append, lexCmp, lexCmp_append_right hr s as bs (by simpa using h)]
 
+/-! ### decimal digits -/
+
+/-- A character is one of the ten digit characters. -/
+def IsDigChar (c : Char) : Prop := ∃ d, d < 10 ∧ c = digitChar d
+
+/-- A non-empty string of digit characters. -/
+def IsDig (l : List Char) : Prop := l ≠ [] ∧ ∀ c ∈ l, IsDigChar c
+
+theorem digitChar_isDigit : ∀ d, d < 10 → isDigit (digitChar d) = true := by decide
+theorem digitVal_digitChar : ∀ d, d < 10 → digitVal (digitChar d) = d := by decide
+
+theorem IsDigChar.isDigit {c : Char} (h : IsDigChar c) : isDigit c = true := by
+  obtain ⟨d, hd, rfl⟩ := h; exact digitChar_isDigit d hd
+
+theorem foldl_digits (k : Nat) (l : List Char) :
+    l.foldl (fun n c => n * 10 + digitVal c) k = k * 10 ^ l.length + natOfDigits l := by
+  induction l generalizing k with
+  | nil => simp [natOfDigits]
+  | cons c cs ih =>
+    have h₁ := ih (k * 10 + digitVal c)
+    have h₂ := ih (0 * 10 + digitVal c)
+    simp only [List.foldl_cons, List.length_cons, natOfDigits] at h₁ h₂ ⊢
+    rw [h₁, h₂, Nat.pow_succ, Nat.add_mul, Nat.mul_assoc, Nat.mul_comm 10 (10 ^ cs.length)]
+    simp [Nat.add_assoc]
+
+theorem natOfDigits_cons (c : Char) (l : List Char) :
+    natOfDigits (c :: l) = digitVal c * 10 ^ l.length + natOfDigits l := by
+  have := foldl_digits (0 * 10 + digitVal c) l
+  simp only [natOfDigits, List.foldl_cons] at this ⊢
+  rw [this]; simp
+
+theorem natDigitsAux_spec : ∀ (fuel n : Nat) (acc : List Char), n < fuel → (∀ c ∈ acc, IsDigChar c) →
+    (∀ c ∈ natDigitsAux fuel n acc, IsDigChar c) ∧ natDigitsAux fuel n acc ≠ [] ∧
+    natOfDigits (natDigitsAux fuel n acc) = n * 10 ^ acc.length + natOfDigits acc
+  | 0, _, _, h, _ => absurd h (Nat.not_lt_zero _)
+  | fuel + 1, n, acc, h, hacc => by
+    unfold natDigitsAux
+    by_cases hn : n < 10
+    · simp only [hn, if_true]
+      refine ⟨?_, by simp, ?_⟩
+      · intro c hc
+        rcases List.mem_cons.1 hc with rfl | hc
+        · exact ⟨n, hn, rfl⟩
+        · exact hacc c hc
+      · rw [natOfDigits_cons, digitVal_digitChar n hn]
+    · simp only [hn, if_false]
+      have hmod : n % 10 < 10 := Nat.mod_lt _ (by decide)
+      have hacc' : ∀ c ∈ digitChar (n % 10) :: acc, IsDigChar c := by
+        intro c hc
+        rcases List.mem_cons.1 hc with rfl | hc
+        · exact ⟨n % 10, hmod, rfl⟩
+        · exact hacc c hc
+      obtain ⟨h₁, h₂, h₃⟩ := natDigitsAux_spec fuel (n / 10) (digitChar (n % 10) :: acc) (by omega) hacc'
+      refine ⟨h₁, h₂, ?_⟩
+      rw [h₃, natOfDigits_cons, digitVal_digitChar _ hmod, List.length_cons, Nat.pow_succ]
+      have : n / 10 * (10 ^ acc.length * 10) + (n % 10 * 10 ^ acc.length + natOfDigits acc)
+          = (10 * (n / 10) + n % 10) * 10 ^ acc.length + natOfDigits acc := by
+        rw [Nat.add_mul, Nat.mul_comm (10 ^ acc.length) 10, ← Nat.mul_assoc, Nat.mul_comm (n / 10) 10]
+        simp [Nat.add_assoc]
+      rw [this, Nat.div_add_mod]
+
+theorem natDigits_isDig (n : Nat) : IsDig (natDigits n) := by
+  obtain ⟨h₁, h₂, _⟩ := natDigitsAux_spec (n + 1) n [] (Nat.lt_succ_self n) (by simp)
+  exact ⟨h₂, h₁⟩
+
+theorem natOfDigits_natDigits (n : Nat) : natOfDigits (natDigits n) = n := by
+  obtain ⟨_, _, h₃⟩ := natDigitsAux_spec (n + 1) n [] (Nat.lt_succ_self n) (by simp)
+  unfold natDigits
+  rw [h₃]; simp [natOfDigits]
+
+theorem IsDig.all_isDigit {l : List Char} (h : IsDig l) : l.all isDigit = true := by
+  apply List.all_eq_true.2
+  intro c hc; exact (h.2 c hc).isDigit
+
+theorem digChar_facts : ∀ d, d < 10 →
+    digitChar d ≠ '-' ∧ digitChar d ≠ '+' ∧ digitChar d ≠ '.' ∧ digitChar d ≠ '!' ∧ digitChar d ≠ '_' := by
+  decide
+
+/-- `Atoi` of the decimal rendering of a number below 2^63 gives the number back. -/
+theorem atoi_natDigits (n : Nat) (h : n < 9223372036854775808) : atoi (natDigits n) = some (n : Int) := by
+  have hd := natDigits_isDig n
+  obtain ⟨c, cs, hcs⟩ : ∃ c cs, natDigits n = c :: cs := by
+    cases hl : natDigits n with
+    | nil => exact absurd hl hd.1
+    | cons c cs => exact ⟨c, cs, rfl⟩
+  have hc : IsDigChar c := hd.2 c (by rw [hcs]; exact List.mem_cons_self)
+  obtain ⟨d, hd10, rfl⟩ := hc
+  obtain ⟨f₁, f₂, _⟩ := digChar_facts d hd10
+  have hall := hd.all_isDigit
+  have hval := natOfDigits_natDigits n
+  rw [hcs] at hall hval ⊢
+  unfold atoi
+  split <;> rename_i hm
+  · -- the "neg" match: head is not '-'
+    simp only [List.cons.injEq] at hm
+    all_goals simp_all
+  · simp_all
+
+theorem intStr_nonneg {x : Int} (h : 0 ≤ x) : intStr x = natDigits x.toNat := by
+  unfold intStr
+  have : ¬ x < 0 := by omega
+  simp only [this, if_false]
+  congr 1
+  omega
+
 end ClairModel.Version
